@@ -238,6 +238,57 @@ class Outcome:
         return ("hang",)
 
 
+def value_malformed(v, depth=0, budget=None):
+    """None if v is a well-formed language value (payloads of the host types each value class promises, containers
+    holding values, and a text form that can be produced), else a short description.  Walks at most 3000 nodes."""
+    import ckl.values as V
+    import datetime
+    if budget is None:
+        budget = [3000]
+    budget[0] -= 1
+    if budget[0] < 0 or depth > 60:
+        return None
+    if not isinstance(v, V.Value):
+        return "a %s where a value is expected" % type(v).__name__
+    t = type(v).__name__
+    p = getattr(v, "value", None)
+    if t == "ValueString" and type(p) is not str:
+        return "a string value around %r" % (p,)
+    if t == "ValueInt" and type(p) is not int:
+        return "an int value around %r" % (p,)
+    if t == "ValueDecimal" and type(p) is not float:
+        return "a decimal value around %r" % (p,)
+    if t == "ValueBoolean" and type(p) is not bool:
+        return "a boolean value around %r" % (p,)
+    if t == "ValueDate" and not isinstance(p, datetime.datetime):
+        return "a date value around %r" % (p,)
+    if t == "ValueList":
+        if type(p) is not list:
+            return "a list value around %r" % type(p).__name__
+        for x in p:
+            bad = value_malformed(x, depth + 1, budget)
+            if bad:
+                return "a list holding " + bad
+    elif t == "ValueSet":
+        for x in list(p):
+            bad = value_malformed(x, depth + 1, budget)
+            if bad:
+                return "a set holding " + bad
+    elif t in ("ValueMap",):
+        for k_, x in list(p.items()):
+            bad = value_malformed(k_, depth + 1, budget) or value_malformed(x, depth + 1, budget)
+            if bad:
+                return "a map holding " + bad
+    elif t == "ValueObject":
+        for k_, x in list(p.items()):
+            if type(k_) is not str:
+                return "an object with member name %r" % (k_,)
+            bad = value_malformed(x, depth + 1, budget)
+            if bad:
+                return "an object holding " + bad
+    return None
+
+
 def safe_str(v, limit=300):
     try:
         s = str(v)
